@@ -6,6 +6,7 @@
 #include <openssl/evp.h>
 #include <thread>
 #include <cppcms/session_pool.h>
+#include <cppcms/service.h>
 #include <cppcms/session_storage.h>
 #include <cppcms/session_api.h>
 #include <cppcms/http_cookie.h>
@@ -115,7 +116,7 @@ struct E5 : Engine {
 		bool net_faults = p.gets("storage") == "network" && r.below(2);   // resets of the storage connection, at most one per request (sequential plans only)
 		int nb = 1 + r.below(3); p["browsers"] = nb; p["conc"] = (int)(nb > 1 && r.below(3) == 0); p["reuse"] = (int)(!p.geti("conc") && r.below(4) == 0);   /* reuse: one long-lived session_interface re-targeted to each request with set_cookie_adapter_and_reload() */ p["strategy"] = (int)r.below(3); p["pct_depth"] = 1 + (int)r.below(3); p["pct_len"] = 50 + (int)r.below(2000);
 		// twin: several concurrent requests of ONE browser (tabs / parallel asynchronous calls presenting the same session cookie) plus gc, all scheduled threads
-		if(r.below(8) == 0){ p["twin"] = 1; p["location"] = "server"; static const char *ts[] = {"files","files","files","memory","network"}; p["storage"] = ts[r.below(5)]; p["flock"] = (int)r.below(2); p["tabs"] = 2 + (int)r.below(2); p["timeout"] = 1000 + (int)r.below(100000);
+		if(r.below(8) == 0){ p["twin"] = 1; p["location"] = "server"; static const char *ts[] = {"files","files","files","memory","network"}; p["storage"] = ts[r.below(5)]; p["flock"] = (int)r.below(2); p["tabs"] = 2 + (int)r.below(2); p["timeout"] = 1000 + (int)r.below(100000); if(r.below(4) == 0){ p["procs"] = 2; p["storage"] = "files"; }   /* procs 2: two worker processes (two cppcms::service objects whose session pools configure the file storage themselves, session.server.shared at its default) share the session directory */
 			J tr = J::arr(); int nt = 2 + r.below(6); for(int i=0;i<nt;i++){ J q = J::obj(); q["tab"] = (int)r.below(3); q["len"] = (int)(r.below(3) == 0 ? r.below(3000) : r.below(40)); q["ro"] = (int)(r.below(4) == 0); tr.push(q); } p["treqs"] = tr; p["gcs"] = (int)r.below(3); }
 		J reqs = J::arr(); int n = 2 + r.below(thorough ? 30 : 12);
 		for(int i=0;i<n;i++){ J q = J::obj(); unsigned x = r.below(100);
@@ -276,14 +277,15 @@ struct E5 : Engine {
 	// loads the state written by some request whose save had started before the load ended and that was not surely overwritten (by a save that started after it
 	// had completed and completed before the load started). Nothing ends the session here (no clear, no reset, deadlines far away): a load that finds nothing, or a
 	// state nobody wrote, or a change of the session id, is a violation. gc runs concurrently and must leave the live session alone.
-	void run_twin(const J &plan,RunResult &res,std::map<std::string,int64_t> &cnt,cppcms::session_pool &pool,SpyFactory *spyf,std::set<std::string> &live_sids){
+	void run_twin(const J &plan,RunResult &res,std::map<std::string,int64_t> &cnt,std::vector<cppcms::session_pool *> pools,SpyFactory *spyf,std::set<std::string> &live_sids){
+		cppcms::session_pool &pool = *pools[0];
 		typedef std::map<std::string,std::string> St; struct Sv { uint64_t st, en; St data; };
 		std::vector<Sv> saves; saves.reserve(64); uint64_t ev = 0; cnt["twin_runs"]++;
 		Jar j0; j0.begin_request(); St base; { session_interface s(pool,j0); s.load(); s.set("base","b0"); s.save(); base["base"] = "b0"; }
 		if(!j0.jar.count(PREFIX) || j0.jar[PREFIX].value.size() != 33 || j0.jar[PREFIX].value[0] != 'I'){ res.fail("session-cookie-missing","twin: no server-side session cookie after the first request"); return; }
 		std::string cookie = j0.jar[PREFIX].value; { Sv f; f.st = ++ev; f.en = ++ev; f.data = base; saves.push_back(f); }
 		int tabs = (int)std::max<int64_t>(2,std::min<int64_t>(plan.geti("tabs",2),3)); const J &tr = plan.get("treqs");
-		auto tab = [&](int me){ Jar jar; jar.jar = j0.jar;
+		auto tab = [&](int me){ Jar jar; jar.jar = j0.jar; cppcms::session_pool &pool = *pools[(size_t)me % pools.size()]; simk::set_node((int)((size_t)me % pools.size()));
 			for(size_t ri=0;ri<tr.size() && ri<12 && res.ok;ri++){ const J &q = tr.a[ri]; if((int)(((q.geti("tab") % tabs) + tabs) % tabs) != me) continue;
 				std::string where = "twin req#" + std::to_string(ri) + " tab " + std::to_string(me); cnt["requests"]++; cnt["twin_requests"]++;
 				jar.begin_request(); session_interface s(pool,jar); bool loaded = false; uint64_t ls,le;
@@ -301,7 +303,7 @@ struct E5 : Engine {
 					try { s.save(); } catch(std::exception const &e){ res.fail("save-threw",where + ": save() threw " + e.what()); return; }
 					{ simk::TsanIgnore ign; saves[idx].en = ++ev; } }
 				jar.expire(); if(!jar.jar.count(PREFIX) || jar.jar[PREFIX].value != cookie){ res.fail("session-id-changed",where + ": the session cookie changed although the session was neither new nor reset"); return; }
-				if(!live_sids.count(cookie.substr(1))){ res.fail("session-not-stored",where + ": the live session's id is no longer in the storage"); return; } } };
+				if(spyf && !live_sids.count(cookie.substr(1))){ res.fail("session-not-stored",where + ": the live session's id is no longer in the storage"); return; } } };
 		std::vector<std::thread> thr; for(int t=0;t<tabs;t++) thr.emplace_back([&,t]{ tab(t); });
 		int gcs = (int)std::max<int64_t>(0,std::min<int64_t>(plan.geti("gcs"),4)); if(spyf && gcs) thr.emplace_back([&]{ for(int i=0;i<gcs;i++){ spyf->gc_job(); cnt["gc"]++; simk::yield(); } });
 		for(auto &t:thr) t.join();
@@ -344,7 +346,13 @@ struct E5 : Engine {
 		int def_timeout = v.get<int>("session.timeout"); int def_how = mode_of(v.get<std::string>("session.expire")); size_t climit = (size_t)v.get<int>("session.client_size_limit");
 		auto now = []{ return simk::now_us()/1000000; };
 		const J &reqs = plan.get("reqs");
-		if(plan.geti("twin")){ run_twin(plan,res,cnt,pool,spyf,live_sids); if(res.ok && !bad_sids.empty()) res.fail("malformed-id-reached-storage","identifier not of the issued form was used to address the storage"); cnt["storage_calls"] = (int64_t)storage_calls; return; }
+		if(plan.geti("twin") && plan.geti("procs") == 2){
+			// two processes: the storage is NOT injected - each service's session pool builds it from the configuration, as a deployment does
+			cppcms::json::value sv = v; sv["service"]["api"] = "http"; sv["service"]["port"] = 8080; sv["service"]["disable_global_exit_handling"] = true; sv["service"]["worker_threads"] = 2; sv["localization"]["locales"][0] = "C"; sv["localization"]["backend"] = "std"; sv["logging"]["stderr"] = false;
+			sv["session"]["location"] = "server"; sv["session"]["server"]["storage"] = "files"; sv["session"]["server"]["dir"] = "/simfs/sessions"; simk::fs_mkdir("/simfs/sessions");
+			std::unique_ptr<cppcms::service> sa(new cppcms::service(sv)), sb(new cppcms::service(sv)); sa->session_pool().init(); sb->session_pool().init(); cnt["twin_two_process_runs"]++;
+			run_twin(plan,res,cnt,{&sa->session_pool(),&sb->session_pool()},nullptr,live_sids); return; }
+		if(plan.geti("twin")){ run_twin(plan,res,cnt,{&pool},spyf,live_sids); if(res.ok && !bad_sids.empty()) res.fail("malformed-id-reached-storage","identifier not of the issued form was used to address the storage"); cnt["storage_calls"] = (int64_t)storage_calls; return; }
 		bool conc = plan.geti("conc") && nb > 1; int in_flight = 0;
 		bool reuse = plan.geti("reuse") && !conc; Jar nobody; std::unique_ptr<session_interface> shared_s; if(reuse) shared_s.reset(new session_interface(pool,nobody));
 		// me == -2: one thread runs everything in plan order; otherwise browser `me` runs its own requests and me == -1 (the
